@@ -51,6 +51,19 @@ CHECKS['C11'] = {
     'technique': 'TLA+ exact recursions + TLC enumeration + state replay; TLC-validated observation events',
 }
 
+CHECKS['C12'] = {
+    'text': 'YuleWalker.tla = Correlation.tla (biased) + LevFn.tla; TLC checks on every non-zero small data vector that the model is stable (P>0, |k|<1), that its autocorrelation equals the biased sample autocorrelation on lags 0..p, that the coefficients solve the least-squares normal equations of the autocorrelation data matrix, and nesting; every solved state is replayed into aryule, pyule (.ar/.reflection), lpc and least squares on corrmtx. N up to 200, orders up to 30: ObsC12.tla observation events (Yule-Walker residual, root/reflection moduli, sign of P, lpc agreement).',
+    'design_ref': 'DESIGN.md 3/C12',
+    'note': 'Exact universe: real N<=5/6, complex N<=3/4, all orders < N. Large sizes only through quantised events whose residual is computed by the harness against the definition of the biased autocorrelation.',
+    'technique': 'TLA+ exact kernel composition + TLC enumeration + state replay; TLC-validated observation events',
+}
+CHECKS['C13'] = {
+    'text': 'Burg.tla: arburg as a stage machine (in-place error arrays, denominator recursion, step-up, variance update) with the envelope evaluated from definitions: |k|<=1, step-up(ref)=a, rho=mean|x|^2 prod(1-|k_i|^2) non-increasing, error arrays = prediction-error-filter outputs, denominator = stage energy, first-order optimality of each k; every stage state is replayed into arburg, _arburg2 and pburg, and with each criterion name the result must be the spec state of order len(ref). N up to 200: ObsC13.tla.',
+    'design_ref': 'DESIGN.md 3/C13',
+    'note': 'Exact universe: real N<=5/6 order<=3, complex N<=4 order<=2; degenerate stages (zero denominator, rho=0) and overflowing states are excluded and counted. Criteria values themselves (logarithms) are not modelled: the stop rule is a nondeterministic truncation.',
+    'technique': 'TLA+ exact stage machine + TLC enumeration + state replay; TLC-validated observation events',
+}
+
 NOT_APPLICABLE = {
     'C18': 'Slepian tapers: irrational eigenproblem solved in C; no exact finite model exists and quantised re-verification would make Python the oracle (a different technique). DESIGN.md section 4.',
 }
